@@ -397,3 +397,124 @@ func ParseFlvFile(b []byte) ([]Rec, error) {
 func Harness(format string, a ...interface{}) {
 	panic(pbt.HarnessError{Msg: fmt.Sprintf(format, a...)})
 }
+
+// ---------------------------------------------------------------------------
+// HTTP-TS consumer: collects the raw body; demuxing happens in the oracle.
+
+type TsConsumer struct {
+	Conn    *memconn.Conn
+	mu      sync.Mutex
+	cond    *sync.Cond
+	body    []byte
+	HTTPHdr string
+	eof     bool
+}
+
+// NewTsSub issues GET /app/name.ts and starts collecting.
+func NewTsSub(s *inproc.Server, app, nameWithQuery string) *TsConsumer {
+	name, query := nameWithQuery, ""
+	if i := bytes.IndexByte([]byte(nameWithQuery), '?'); i >= 0 {
+		name, query = nameWithQuery[:i], nameWithQuery[i:]
+	}
+	conn := s.HttpSub("/"+app+"/"+name+".ts"+query, false)
+	c := &TsConsumer{Conn: conn}
+	c.cond = sync.NewCond(&c.mu)
+	conn.WaitPeerIdle(IdleTimeout)
+	go func() {
+		var hdrBuf []byte
+		hdrDone := false
+		buf := make([]byte, 64*1024)
+		for {
+			n, err := conn.Read(buf)
+			if n > 0 {
+				data := buf[:n]
+				c.mu.Lock()
+				if !hdrDone {
+					hdrBuf = append(hdrBuf, data...)
+					if i := bytes.Index(hdrBuf, []byte("\r\n\r\n")); i >= 0 {
+						c.HTTPHdr = string(hdrBuf[:i+4])
+						c.body = append(c.body, hdrBuf[i+4:]...)
+						hdrDone = true
+					}
+				} else {
+					c.body = append(c.body, data...)
+				}
+				c.cond.Broadcast()
+				c.mu.Unlock()
+			}
+			if err != nil {
+				c.mu.Lock()
+				c.eof = true
+				c.cond.Broadcast()
+				c.mu.Unlock()
+				return
+			}
+		}
+	}()
+	return c
+}
+
+// Body returns a copy of the bytes received so far.
+func (c *TsConsumer) Body() []byte {
+	c.mu.Lock()
+	defer c.mu.Unlock()
+	return append([]byte(nil), c.body...)
+}
+
+// WaitPred blocks until pred(body) holds (re-evaluated whenever new data has
+// arrived), EOF, or timeout; it reports whether pred held.
+func (c *TsConsumer) WaitPred(pred func(body []byte) bool, timeout time.Duration) bool {
+	deadline := time.Now().Add(timeout)
+	t := time.AfterFunc(timeout, func() { c.mu.Lock(); c.cond.Broadcast(); c.mu.Unlock() })
+	defer t.Stop()
+	c.mu.Lock()
+	defer c.mu.Unlock()
+	seen := -1
+	for {
+		if len(c.body) != seen {
+			seen = len(c.body)
+			if pred(c.body) {
+				return true
+			}
+		}
+		if c.eof || !time.Now().Before(deadline) {
+			return false
+		}
+		c.cond.Wait()
+	}
+}
+
+func (c *TsConsumer) Close() { _ = c.Conn.Close() }
+
+// SplitAnnexB splits an Annex-B byte stream into NAL units (3- or 4-byte start
+// codes; trailing zero bytes of a unit are dropped, as the specification
+// defines them as trailing_zero_8bits).
+func SplitAnnexB(b []byte) [][]byte {
+	var out [][]byte
+	i := 0
+	start := -1
+	n := len(b)
+	for i+2 < n {
+		if b[i] == 0 && b[i+1] == 0 && b[i+2] == 1 {
+			if start >= 0 {
+				end := i
+				for end > start && b[end-1] == 0 {
+					end--
+				}
+				out = append(out, b[start:end])
+			}
+			start = i + 3
+			i += 3
+			continue
+		}
+		i++
+	}
+	if start >= 0 {
+		end := n
+		for end > start && b[end-1] == 0 {
+			end--
+		}
+		out = append(out, b[start:end])
+	}
+	return out
+}
